@@ -30,25 +30,11 @@ def SliceI.wrapT (T : ITy) : SliceI → SliceI
   | .full => .full
   | .strided o x s => .strided (T.wrap o) (T.wrap x) (T.wrap s)
 
-/-- all multi-indices inside `es`, row-major -/
-def allIdx : List Int → List (List Int)
-  | [] => [[]]
-  | e :: es => (List.range e.toNat).flatMap (fun (i : Nat) => (allIdx es).map (fun t => Int.ofNat i :: t))
-
-def subAlias (T : ITy) (r : SubRes) : M (List Int) :=
-  if r.exts.any (· ≤ 0) then pure [] else
-  ((allIdx r.exts).take 4096).mapM (fun js => do
-    let v ← (match r.kind with
-      | "left" => leftOffM T r.exts js
-      | "right" => rightOffM T r.exts js
-      | _ => strideOffM T js r.strs)
-    pure (ITy.u64.wrap (r.off + ITy.u64.wrap v)))
-
-def subOp (T : ITy) (kind : String) (es ss : List Int) (sls : List SliceI) (op : String) : String :=
+def subOp (T : ITy) (kind : String) (es ss : List Int) (sls : List SliceI) (op : String) (shift : Int := 0) : String :=
   if op == "adm" then s!"ok {fmtB (subAdm T kind es ss sls)}" else
   match subMappingM T kind es ss sls with
   | .ok r =>
-    if op == "alias" then showL (subAlias T r)
+    if op == "alias" then showL (subAliasM T r)
     else
       let spans : M (Int × Int) := do
         let sp ← (match r.kind with
@@ -59,11 +45,14 @@ def subOp (T : ITy) (kind : String) (es ss : List Int) (sls : List SliceI) (op :
           | _ => spanLRM T es)
         pure (sp, ssp)
       match spans with
-      | .ok (sp, ssp) => s!"off={r.off} ext={fmtL r.exts} kind={r.kind} str={fmtL r.strs} span={sp} sspan={ssp}"
+      | .ok (sp, ssp) => s!"off={r.off + shift} ext={fmtL r.exts} kind={r.kind} str={fmtL r.strs} span={sp} sspan={ssp}"
       | .error e => ubStr e
   | .error e => ubStr e
 
-def subLine (kind ty : String) (rest : List String) : String :=
+def subLine (kind0 ty : String) (rest : List String) : String :=
+  -- `ushift`: the harness's user layout with a submdspan_mapping customization point = the layout_right result, offset + 7
+  let kind := if kind0 == "ushift" then "right" else kind0
+  let shift : Int := if kind0 == "ushift" then 7 else 0
   match parseTy ty with
   | none => "bad-op"
   | some T =>
@@ -91,7 +80,7 @@ def subLine (kind ty : String) (rest : List String) : String :=
             let sp ← (match rr.kind with
               | "stride" => spanStrideM T rr.exts rr.strs
               | _ => spanLRM T rr.exts)
-            let al ← subAlias T rr
+            let al ← subAliasM T rr
             -- the C++ adds the two offsets as size_t values (modulo 2^64; only inadmissible lines can wrap)
             pure (s!"off={ITy.u64.wrap rr.off} ext={fmtL rr.exts} kind={rr.kind} str={fmtL rr.strs} span={sp} l1off={r1.off} l1span={sp1} l2off={r2.off} " ++ showL (pure al))
           match r with
@@ -102,9 +91,9 @@ def subLine (kind ty : String) (rest : List String) : String :=
         let h : Int := (((getKey rest "h").getD "0").toInt?).getD 0
         let id : Int := (((getKey rest "id").getD "0").toInt?).getD 0
         match subMappingM T kind es ss (sls.map (SliceI.wrapT T)) with
-        | .ok r => s!"h={h + r.off} acc={id} n=1 log={-1 - h},{r.off} same=1 ext={fmtL r.exts}"
+        | .ok r => s!"h={h + r.off + shift} acc={id} n=1 log={-1 - h},{r.off + shift} same=1 ext={fmtL r.exts}"
         | .error e => ubStr e
-      else subOp T kind es ss (sls.map (SliceI.wrapT T)) op
+      else subOp T kind es ss (sls.map (SliceI.wrapT T)) op shift
     | none => "bad-op"
 
 end Drv
